@@ -84,7 +84,7 @@ Clauses(o) ==
         wants == [c \in 1..n |-> RuleDen(o.doc, c, K.cidr)]
         st == Worst([c \in 1..n |-> wants[c].st])
     IN
-    IF st = "unspec" THEN <<>>
+    IF st = "unspec" THEN <<D("__unspec")>>     \* the documents do not define the rule's meaning: nothing is asserted
     ELSE IF ~o.ret.ok THEN
         (IF o.ret.sigma THEN (IF st = "fail" THEN <<>> ELSE <<C("ValidRuleRejected")>>)
          ELSE IF o.ret.exc = "NotImplementedError" /\ \E c \in 1..n : Unsupported(K, wants[c].e) THEN <<>>
@@ -98,7 +98,7 @@ Verdict(o) ==
         viol == SelectSeq(cs, LAMBDA c : ~c.dev)
     IN  [id |-> o.id,
          v |-> IF viol # <<>> THEN "violation:" \o viol[1].name
-               ELSE IF cs # <<>> THEN "dev:" \o cs[1].name ELSE "ok"]
+               ELSE IF cs # <<>> THEN (IF cs[1].name = "__unspec" THEN "unspec" ELSE "dev:" \o cs[1].name) ELSE "ok"]
 ASSUME ndJsonSerialize(IOEnv.VERIF_OUT, [i \in 1..Len(Obs) |-> Verdict(Obs[i])])
 Init == x = 0
 Next == UNCHANGED x
